@@ -421,6 +421,25 @@ func generalScenarios() []*scenario {
 			{Name: "getters", Run: node(func(n *stat.ResourceNode) string {
 				return fmt.Sprint(n.GetQPS(base.MetricEventPass), n.GetSum(base.MetricEventComplete), n.AvgRT(), n.MinRT(), n.CurrentConcurrency(), n.MaxConcurrency(), n.GetPreviousQPS(base.MetricEventPass))
 			})}}},
+		// the clock moves past the window while a getter is computing (the window rolls between two of its reads)
+		{Name: "stat: node getters || clock +3s", Setup: warm, Actors: []actor{
+			{Name: "getters", Run: node(func(n *stat.ResourceNode) string {
+				_ = fmt.Sprint(n.AvgRT(), n.GetQPS(base.MetricEventPass), n.MinRT(), n.GetPreviousQPS(base.MetricEventComplete))
+				return ""
+			})},
+			{Name: "clock", Run: func() string { env.Clock.AdvanceMs(3000); return "" }}}},
+		{Name: "stat: InboundNode getters || clock +3s", Setup: func() {
+			plain()
+			if e, blk := sentinel.Entry("a", in); blk == nil {
+				e.Exit()
+			}
+		}, Actors: []actor{
+			{Name: "getters", Run: func() string {
+				n := stat.InboundNode()
+				_ = fmt.Sprint(n.AvgRT(), n.GetQPS(base.MetricEventPass), n.MinRT())
+				return ""
+			}},
+			{Name: "clock", Run: func() string { env.Clock.AdvanceMs(3000); return "" }}}},
 		{Name: "stat: traffic(b) || ResourceNodeList", Setup: warm, Actors: []actor{{Name: "t", Run: traffic("b", false), Allowed: []string{"pass"}},
 			{Name: "list", Run: func() string { return fmt.Sprint(len(stat.ResourceNodeList())) }}}},
 		{Name: "stat: inbound(a) || InboundNode getters", Setup: warm, Actors: []actor{{Name: "t", Run: traffic("a", false, in), Allowed: []string{"pass"}},
